@@ -578,6 +578,17 @@ func workersScenario(kind string, n, items int, panicAt int) vx.Scenario {
 					its = append(its, i)
 				}
 				fx.Just(its...).Parallel(func(item any) { work(item.(int)) }, fx.WithWorkers(n))
+			case "threading.WorkerGroup":
+				// n workers run the job once each (the panicAt-th invocation panics) and Start waits for all
+				k := 0
+				threading.NewWorkerGroup(func() {
+					me := k
+					k++
+					work(me)
+				}, n).Start()
+				if mapped != n {
+					s.fail("workergroup-invocations", "WorkerGroup of %d workers ran the job %d times before Start returned", n, mapped)
+				}
 			}
 		}()
 		s.notes = append(s.notes, fmt.Sprintf("mapped=%d max=%d", mapped, s.gauge.Max()))
@@ -610,6 +621,7 @@ func main() {
 		sc = append(sc, limitScenario(n, "BBB"), limitScenario(n, "TTT"), limitScenario(n, "BTB"))
 		sc = append(sc, timeoutLimitScenario(n, 3))
 		sc = append(sc, poolScenario(n, 3, 1, false), poolScenario(n, 2, 2, false), poolScenario(n, 2, 2, true), poolScenarioPanic(n, 2, 2, true, true))
+		sc = append(sc, workersScenario("threading.WorkerGroup", n+1, 0, -1), workersScenario("threading.WorkerGroup", n+1, 0, 0))
 		sc = append(sc, taskRunnerScenario(n, 3, true, true, -1), taskRunnerScenario(n, 3, true, false, 1), taskRunnerScenario(n, 3, false, false, -1), taskRunnerScenario(n, 3, false, false, 0))
 		sc = append(sc, maxConnsScenario(n, 3, true, -1), maxConnsScenario(n, 3, false, 1), maxConnsScenario(n, 3, false, -1))
 		sc = append(sc, maxConnsScenarioKinds(n, 3, true, -1, []string{"websocket", "", "sse"}), maxConnsScenarioKinds(n, 3, true, -1, []string{"sse", "websocket"}))
